@@ -11,7 +11,7 @@ def bracket(rng, gates):
     if len(gates) == 1:
         return gates[0]
     k = rng.randint(1, len(gates) - 1)
-    return (rng.choice(["mul", "mulassign", "append", "pushsingles"]), bracket(rng, gates[:k]), bracket(rng, gates[k:]))
+    return (rng.choice(["mul", "mulassign", "append", "pushsingles", "pushfront"]), bracket(rng, gates[:k]), bracket(rng, gates[k:]))
 
 
 def cases(rng, tier):
@@ -26,10 +26,15 @@ def cases(rng, tier):
         cs.append({"kind": "applyseq", "n": n, "j": j, "es": gates})
         # (i)/(iii) as one product under a random bracketing / API mix
         e = bracket(rng, gates) if gates else ("id",)
-        cs.append({"kind": "applybasis", "n": n, "j": j, "e": e})
+        cs.append({"kind": "applybasis", "n": n, "j": j, "e": e, "threads": rng.choice([1, 1, 2, 4])})
         if k and rng.random() < 0.5:
             e2 = bracket(rng, gates)
-            cs.append({"kind": "applyraw", "n": n, "raw": gen.random_state(rng, n), "e": e2})
+            cs.append({"kind": "applyraw", "n": n, "raw": gen.random_state(rng, n), "e": e2, "threads": rng.choice([1, 1, 2, 3])})
+    # empty products (identity, h / qft on the empty mask, products of those) on dense states, both threading models
+    for e in (("id",), ("h", 0), ("qft", 0), ("mul", ("id",), ("id",)), ("mul", ("h", 0), ("id",)), ("dgr", ("id",))):
+        for th in (1, 2, 4):
+            for n in (0, 1, 3, 5):
+                cs.append({"kind": "applyraw", "n": n, "raw": gen.random_state(rng, n), "e": e, "threads": th})
     # identity neutral on both sides
     for _ in range(20):
         n = rng.randint(1, 4)
